@@ -26,7 +26,7 @@ func init() {
 		MinNonTrivial:     100,
 		MinEffectiveShare: 0.4,
 		RequiredEvents: map[string]int64{"binary_runs": 400, "stdout_bytes_compared": 50000, "outfile_compared": 50, "outfile_preexisting": 20, "error_exit_cases": 30, "list_invocations": 200, "diff_invocations": 80,
-			"flag_exposure": 30, "flag_focusworkload": 30, "flag_fail": 30, "infos_vs_dirpath_compared": 100, "fixture_invocations": 40},
+			"flag_exposure": 30, "flag_focusworkload": 30, "flag_fail": 30, "infos_vs_dirpath_compared": 100, "infos_vs_dirpath_compared_with_stop_on_error": 20, "fixture_invocations": 40},
 	})
 }
 
@@ -145,13 +145,22 @@ func runC18(c *run.Ctx) {
 		r.Effective = lib.Output != ""
 		r.NonTrivial = lib.Output != "" && nondefault > 0
 		// resource-info API vs directory API: same connections
-		if !fail {
-			a := observe.List(dir, observe.ListOpts{Exposure: opts.Exposure, Focus: opts.Focus})
-			b := observe.List(dir, observe.ListOpts{Exposure: opts.Exposure, Focus: opts.Focus, ViaInfos: true})
-			if a.Panic == "" && b.Panic == "" {
+		{
+			a := observe.List(dir, observe.ListOpts{Exposure: opts.Exposure, Focus: opts.Focus, StopOnError: fail})
+			b := observe.List(dir, observe.ListOpts{Exposure: opts.Exposure, Focus: opts.Focus, StopOnError: fail, ViaInfos: true})
+			// with stop-on-error the two routes are comparable only when the scan itself reported nothing (scan errors never reach
+			// the analyzer on the resource-info route, and the directory route stops on them)
+			if a.Panic == "" && b.Panic == "" && (!fail || b.ScanErrs == 0) {
 				r.Ev("infos_vs_dirpath_compared", 1)
+				shape := "differs"
+				if fail {
+					shape = "differs-with-stop-on-error"
+					r.Ev("infos_vs_dirpath_compared_with_stop_on_error", 1)
+				}
 				if ok, d := relationsEqual(a, b); !ok {
-					r.Violate("c18.infos", "c18.infos:"+class+":differs", "ConnlistFromResourceInfos(scan(dir)) returns the connections of ConnlistFromDirPath(dir)", d, strings.Join(flags, " "))
+					r.Violate("c18.infos", "c18.infos:"+class+":"+shape, "ConnlistFromResourceInfos(scan(dir)) returns the connections of ConnlistFromDirPath(dir)", d, strings.Join(flags, " "))
+				} else if fail && a.HasErr != b.HasErr {
+					r.Violate("c18.infos", "c18.infos:"+class+":error-state-differs-with-stop-on-error", "both routes return an error, or neither", fmt.Sprintf("dir route error=%v (%s), resource-info route error=%v (%s)", a.HasErr, a.Err, b.HasErr, b.Err), strings.Join(flags, " "))
 				}
 			}
 		}
